@@ -196,11 +196,11 @@ Definition wout_defined (o : wout) : Prop :=
 (* what the walk needs from the value decoders: only Notify with defined codes; IndexError/ValueError only from
    classes marked TREAT_AS_WITHDRAW or DISCARD; nothing else *)
 Definition vdec_contract (vdec : Z -> Z -> bytes -> vres) : Prop :=
-  forall f a v,
+  forall f a v r, attr_row a = Some r ->
     match vdec f a v with
-    | VOk => True
+    | VOk | VDiscarded => True
     | VNotify c s => rfc_defined c s = true
-    | VIndexValue => exists r, attr_row a = Some r /\ (r_taw r || r_discard r) = true
+    | VIndexValue => (r_taw r || r_discard r) = true
     | VOther _ => False
     end.
 
@@ -214,13 +214,13 @@ Proof.
     + set (f' := if r_optional r then Z.land f MASK_PARTIAL else f).
       destruct (Z.lor f' F_EXT =? r_flag r); [|discriminate].
       destruct ((l =? 0) && negb (r_vzero r)); [discriminate|].
-      pose proof (Hc f' a v) as Hv.
-      destruct (vdec f' a v) as [|c s| |k].
+      pose proof (Hc f' a v r Hr) as Hv.
+      destruct (vdec f' a v) as [| |c s| |k].
+      * discriminate.
       * discriminate.
       * destruct (r_taw r); [discriminate|]. destruct (r_discard r); [discriminate|].
         intros E; inversion E; subst. exact Hv.
-      * destruct Hv as (r' & Hr' & Hb). rewrite Hr in Hr'. inversion Hr'; subst r'.
-        destruct (r_taw r); [discriminate|]. destruct (r_discard r); [discriminate|]. discriminate.
+      * destruct (r_taw r); [discriminate|]. destruct (r_discard r); [discriminate|]. discriminate.
       * contradiction.
   - destruct (mem a seen); [discriminate|]. destruct (bit f F_TRANSITIVE); discriminate.
 Qed.
